@@ -999,6 +999,11 @@ func wfRangeReq(o *ObjectRangeRequest) bool {
 //@ func (*GoFakeS3).listBucket
 //@ props C09 C04
 //@ requires           inv:    gInv(g) && w != nil && rqInv(r)
+// C04 (V2): the continuation token handed out is one the server itself reads back as the backend's NextMarker
+// (listBucketPageFromQuery decodes incoming tokens with base64.URLEncoding: clause tokval)
+//@ rethint [C04]      token:  imp(objects != nil && objects.NextMarker != "",
+//@                              str(nth(base64.URLEncoding.DecodeString(result__2.NextContinuationToken), 0)) == objects.NextMarker &&
+//@                              nth(base64.URLEncoding.DecodeString(result__2.NextContinuationToken), 1) == nil)
 //@ func (*GoFakeS3).getBucketLocation
 //@ props C09
 //@ requires           inv:    gInv(g) && w != nil && rqInv(r)
@@ -1045,7 +1050,7 @@ func wfRangeReq(o *ObjectRangeRequest) bool {
 //@ func (*GoFakeS3).createObject
 //@ props C09 C08 C12 C01
 //@ requires           inv:    gInv(g) && w != nil && rqInv(r)
-//@ ensures [C01,C08]  wired:  imp(put_count == old(put_count) + 1, put_bucket == bucket && put_key == object && put_size >= 0 &&
+//@ ensures [C01,C08,C12] wired: imp(put_count == old(put_count) + 1, put_bucket == bucket && put_key == object && put_size >= 0 &&
 //@                              typeis(put_input, *hashingReader) && dyn(put_input, *hashingReader) != nil &&
 //@                              (dyn(put_input, *hashingReader).inner == old(r.Body) ||
 //@                               (typeis(dyn(put_input, *hashingReader).inner, *chunkedReader) && dyn(dyn(put_input, *hashingReader).inner, *chunkedReader) != nil &&
@@ -1234,9 +1239,40 @@ func wfRangeReq(o *ObjectRangeRequest) bool {
 //@ ensures [C16]     path:   served_path == ite(pureres("hostBucketBaseMiddleware.matchBucket", 1, old(rq.Host)),
 //@                             specHostPath(pureres("hostBucketBaseMiddleware.matchBucket", 0, old(rq.Host)), old(rq.URL.Path)), old(rq.URL.Path))
 
+// the three middleware constructors return exactly their handler closure; a host-rewriting middleware is
+// never put around another one (a request would be rewritten twice)
+//@ pred hostRewriter(h) = isfn(h, http.HandlerFunc, "gofakes3.(*GoFakeS3).hostBucketMiddleware$1") ||
+//@     isfn(h, http.HandlerFunc, "gofakes3.(*GoFakeS3).hostBucketBaseMiddleware$2")
+//@ func (*GoFakeS3).hostBucketMiddleware
+//@ props C16 C09
+//@ requires [C16]    once:   !hostRewriter(handler)
+//@ ensures [C16]     is:     isfn(ret0, http.HandlerFunc, "gofakes3.(*GoFakeS3).hostBucketMiddleware$1")
+//@ func (*GoFakeS3).hostBucketBaseMiddleware
+//@ props C16 C09
+//@ requires          inv:    g != nil
+//@ requires [C16]    once:   !hostRewriter(handler)
+//@ ensures [C16]     is:     isfn(ret0, http.HandlerFunc, "gofakes3.(*GoFakeS3).hostBucketBaseMiddleware$2")
+// the CORS wrapper configured by New / WithInsecureCORS is one of the two functions below
+//@ funcfield GoFakeS3.wrapCORS
+//@ ensures           cors:   typeis(ret0, *withCORS)
+//@ func wrapCORS
+//@ props C16 C09
+//@ ensures [C16]     cors:   typeis(ret0, *withCORS)
+//@ func wrapInsecureCORS
+//@ props C16 C09
+//@ ensures [C16]     cors:   typeis(ret0, *withCORS)
+//@ func (*GoFakeS3).timeSkewMiddleware
+//@ props C16 C09
+//@ ensures [C09]     is:     isfn(ret0, http.HandlerFunc, "gofakes3.(*GoFakeS3).timeSkewMiddleware$1")
+
+// C16: which addressing mode the server answers in is decided by the options alone: configured bases take
+// precedence over plain host-bucket mode, and the outermost handler is the one of that mode (so a request is
+// never rewritten by both)
 //@ func (*GoFakeS3).Server
 //@ props C16 C09
 //@ requires          inv:    g != nil
+//@ ensures [C16]     mode:   imp(len(g.hostBucketBases) > 0, isfn(ret0, http.HandlerFunc, "gofakes3.(*GoFakeS3).hostBucketBaseMiddleware$2")) &&
+//@                             imp(len(g.hostBucketBases) == 0 && g.hostBucket, isfn(ret0, http.HandlerFunc, "gofakes3.(*GoFakeS3).hostBucketMiddleware$1"))
 
 // ---- listings (C03, C04) ---------------------------------------------------------------
 // Prefix.Match is specified through three uninterpreted functions of (prefix, key);
